@@ -6,7 +6,7 @@
    failing, and restarts at any point. *)
 From stdpp Require Import gmap.
 From LV Require Import Circuit.Model Circuit.Spec Circuit.Discipline Circuit.Proofs Circuit.RestartProofs
-  Circuit.RollbackProofs Circuit.DisciplineProofs.
+  Circuit.RollbackProofs Circuit.DisciplineProofs Circuit.Identity Circuit.IdentityProofs.
 Local Open Scope N_scope.
 
 (* Between two CommitCircuits memory phases that both decide Add for the same
@@ -165,3 +165,37 @@ Theorem C07_discipline_invariant : forall ops,
   let c := srun init ops in
   c_thr c = ∅ /\ mem_coherent (c_mem c) /\ wf_out (c_mem c).
 Proof. exact discipline_invariant. Qed.
+
+(* CHANNEL IDENTITY.  The restart takes the channels and their identifiers from the
+   channel database.  A record (Identity.chanrec) carries ShortChannelID (for a
+   zero-conf channel an ALIAS, for its whole life), the confirmed on-chain scid of a
+   zero-conf channel (set by MarkRealScid, re-set after a reorg) and the channel-type
+   bits; the channel's link keys every outgoing circuit by [link_scid] = ShortChannelID
+   (link.go:2150).  For ANY set of records - whatever their confirmed scid and type
+   bits are - and any disk (contiguous, as in C07_restart_exact):
+     - every keystone keyed by the LINK's id of an open, non-pending channel whose
+       HtlcID is at or above the channel's NextLocalHtlcIndex (its HTLC never reached a
+       commitment) is not open after the restart, and (one keystone per circuit) its
+       circuit is half-open, so a re-forward of the incoming ADD is FAILED back;
+     - every surviving keystone whose HtlcID is below NextLocalHtlcIndex of every open
+       channel using that id stays open under that same id, and a re-forward is dropped.
+   The tie (harness/htlcswitch/verif_circuit_ident_test.go) builds real channeldb
+   records of every identity kind and compares the real NewCircuitMap against
+   [restart (rc_of_records ...)] with cr_short := the id the live link uses. *)
+Theorem C07_restart_identity : forall closed resmsg act d nxt m' d',
+  let rc := rc_of_records closed resmsg act in
+  restart rc d nxt = (m', d') ->
+  contiguous_on_disk rc d ->
+  (forall r j, r ∈ act -> cr_pending r = false -> link_scid r <> 0 ->
+     next_local_htlc_index (cr_tip r) (cr_ridx r) <= j ->
+     opened m' !! (link_scid r, j) = None /\
+     (single_keystone (d_ks d) ->
+      forall k, d_ks d !! (link_scid r, j) = Some k -> pending m' !! k <> None ->
+        exists ob, found_obj m' k = Some ob /\ o_out ob = None /\ classify (Some ob) = AFail)) /\
+  (forall (o k : key), live_ks rc d o k ->
+     (forall r, r ∈ act -> cr_pending r = false -> link_scid r = o.1 ->
+        o.2 < next_local_htlc_index (cr_tip r) (cr_ridx r)) ->
+     opened m' !! o = Some (inr k) /\
+     (single_keystone (d_ks d) ->
+      exists ob, found_obj m' k = Some ob /\ o_out ob = Some o /\ classify (Some ob) = ADrop)).
+Proof. exact restart_identity. Qed.
